@@ -598,6 +598,9 @@ func (x *exec) handle(m ymsg) {
 		g.inWindow[m.task] = m.a
 	case evLoadErr:
 		g.inWindow[m.task] = 0
+		if x.cache != nil {
+			x.cache.badLoads[m.a]++
+		}
 	case evLoadOK:
 		if x.cache != nil {
 			x.cache.okLoads[m.a]++
